@@ -78,7 +78,7 @@ ALLOWED = {
 
 def _gen_seqs(rng, kind):
     t = rng.choices(["protein", "nuc", "nuc_amb", "custom"], [5, 3, 2, 2 if kind in ("muscle3", "mafft") else 0.4])[0]
-    n = rng.choice([2, 2, 3, 3, 4, 5, 6])
+    n = rng.choice([2, 2, 3, 3, 4, 5, 6, 9, 10, 11, 12, 14])
     mode = rng.choice(["random", "random", "equal", "len1", "related"])
     if t == "custom":
         k = rng.randint(3, 24)
@@ -1447,3 +1447,132 @@ def simplify(spec):
             s = copy.deepcopy(spec)
             s["cfg"]["wrappers"][wi]["bin"] = None
             yield s
+
+
+# ================================================================================================
+# systematic prefix: every short call sequence x every fault kind x every wrapper kind
+# ================================================================================================
+
+ENUM_ALPHABET = ["start", "join", "join_t", "cancel", "state", "setter", "result", "advance", "getter"]
+ENUM_FAULTS = ["ok", "launch", "nonzero", "hang", "out", "tree", "slow"]
+ENUM_LEN = {"quick": 3, "thorough": 4}
+
+
+def enum_size(length):
+    n = 0
+    for L in range(1, length + 1):
+        n += len(ENUM_ALPHABET) ** L
+    return n * len(ENUM_FAULTS) * len(KINDS)
+
+
+def enum_spec(index, length):
+    """index -> (kind, fault, call sequence) in a fixed mixed-radix order; data (sequences etc.) is small and fixed."""
+    per_seq = len(ENUM_FAULTS) * len(KINDS)
+    seq_i, rest = divmod(index, per_seq)
+    fault = ENUM_FAULTS[rest // len(KINDS)]
+    kind = KINDS[rest % len(KINDS)]
+    L = 1
+    while seq_i >= len(ENUM_ALPHABET) ** L:
+        seq_i -= len(ENUM_ALPHABET) ** L
+        L += 1
+    calls = []
+    for _ in range(L):
+        seq_i, a = divmod(seq_i, len(ENUM_ALPHABET))
+        calls.append(ENUM_ALPHABET[a])
+    script = {"launch": "ok", "dur": 2.6, "exit": 0, "out": "ok", "tree": "ok", "stderr": "", "tool_seed": 12345 + index % 97}
+    if fault == "launch":
+        script["launch"] = ["enoent", "eacces", "eagain"][index % 3]
+    elif fault == "nonzero":
+        script["exit"] = 1
+        script["stderr"] = "FATAL\n"
+    elif fault == "hang":
+        script["dur"] = None
+    elif fault == "out":
+        script["out"] = ["garbage", "empty", "missing_row", "truncated"][index % 4]
+        if kind == "stubpoll":
+            script["eval"] = "fail"
+    elif fault == "tree":
+        script["tree"] = ["missing", "empty", "garbage"][index % 3]
+    elif fault == "slow":
+        script["dur"] = 120.6
+    w = {"kind": kind, "bin": None, "script": script}
+    if kind in ("stublocal", "stubpoll"):
+        w["bin"] = "stubtool"
+        if kind == "stubpoll":
+            script["wi"] = 1.0
+            script.setdefault("eval", "ok")
+        else:
+            script["stdout"] = "hello\n"
+    else:
+        w["seqs"] = {"type": "protein", "rows": ["ACDEF", "ACEF", "CDEFG"], "alphabet": None}
+        w["matrix"] = None
+        w["ctor_fault"] = None
+        if kind == "muscle3":
+            w["version"] = {"kind": "ok", "banner": "MUSCLE v3.8.31 by Robert C. Edgar\n"}
+        elif kind == "muscle5":
+            w["version"] = {"kind": "ok", "banner": "muscle 5.1.linux64 []\n"}
+    ops = [{"w": 0, "op": "create"}]
+    for c in calls:
+        if c == "join":
+            ops.append({"w": 0, "op": "join", "timeout": None if script["dur"] is not None else 3.0})
+        elif c == "join_t":
+            ops.append({"w": 0, "op": "join", "timeout": 3.0})
+        elif c == "advance":
+            ops.append({"op": "advance", "dt": 10.0})
+        elif c == "setter":
+            if kind == "stubpoll":
+                ops.append({"w": 0, "op": "state"})
+            else:
+                ops.append({"w": 0, "op": "add_options", "options": ["--x-a"]})
+        elif c == "result":
+            ops.append({"w": 0, "op": RESULTS[kind][0] if RESULTS[kind] else "get_stdout"})
+        elif c == "getter":
+            ops.append({"w": 0, "op": "get_command" if kind != "stubpoll" else "state"})
+        else:
+            ops.append({"w": 0, "op": c})
+    return {"cfg": {"wrappers": [w], "jumps": [], "name_seed": index}, "ops": ops, "enum": {"kind": kind, "fault": fault, "calls": calls}}
+
+
+class _EnumModule:
+    """Module-like view of this property whose run index enumerates the systematic family."""
+
+    PROP = PROP
+    SEED_NAMESPACE = "C20-enum"
+    STALL_SECONDS = STALL_SECONDS
+
+    def __init__(self, length):
+        self.length = length
+
+    def generate_indexed(self, index, rng):
+        return enum_spec(index, self.length)
+
+    @staticmethod
+    def execute(spec, keep_log=0):
+        return execute(spec, keep_log=keep_log)
+
+
+ENUM_MODULE = _EnumModule(ENUM_LEN["thorough"])
+
+
+def extra_phase(tier, seed, total, workers, scratch):
+    from .. import core
+
+    length = ENUM_LEN.get(tier, 3)
+    n = enum_size(length)
+    mod = _EnumModule(length)
+    global ENUM_MODULE
+    ENUM_MODULE = mod
+    sub = os.path.join(scratch, "enum")
+    os.makedirs(sub, exist_ok=True)
+    saved = core.DIGEST_SAMPLE, core.SAMPLE_INDICES
+    core.DIGEST_SAMPLE, core.SAMPLE_INDICES = 0, ()
+    try:
+        agg, truncated = core.run_many(mod, seed, n, workers, sub)
+    finally:
+        core.DIGEST_SAMPLE, core.SAMPLE_INDICES = saved
+    for idx, v in agg.violations:
+        v["phase"] = "enum"
+    before = total.runs
+    total.merge(agg)
+    return {"what": f"every call sequence of length <= {length} over {ENUM_ALPHABET} x fault kinds {ENUM_FAULTS} x wrapper kinds {KINDS}",
+            "runs": agg.runs, "expected_runs": n, "exhaustive_over_this_family": agg.runs == n and not truncated, "violations": len(agg.violations)}
